@@ -38,7 +38,9 @@ def gen_format(rng):
             d = rng.choice(DIRECTIVES)
             left = rng.random() < 0.35
             width = rng.choice([None, None, None, 0, 1, 2, 3, 5, 8, 12, 20, 40, rng.randrange(41, 400), rng.choice([63, 64, 65, 66, 127, 128, 129, 255, 256, 257, 1000, 4097])])
-            pieces.append(("dir", d, left, width))
+            # one width in six is spelled with leading zeros (%05d, %-08s): still a minimum width of that many columns
+            zeros = rng.choice([1, 1, 2]) if width is not None and rng.random() < 0.17 else 0
+            pieces.append(("dir", d, left, width, zeros))
     return pieces
 
 
@@ -53,7 +55,7 @@ def format_text(pieces):
         elif p[0] == "pct":
             s = "%%"
         else:
-            s = "%" + ("-" if p[2] else "") + ("" if p[3] is None else str(p[3])) + p[1]
+            s = "%" + ("-" if p[2] else "") + ("" if p[3] is None else "0" * (p[4] if len(p) > 4 else 0) + str(p[3])) + p[1]
         out.append(s)
     return "".join(out)
 
@@ -169,7 +171,8 @@ def render(pieces, e, mode, sb, h_override=None):
         elif pc[0] == "pct":
             out.append(("b", b"%"))
         else:
-            _, d, left, width = pc
+            _, d, left, width = pc[:4]
+            zeros = pc[4] if len(pc) > 4 else 0
             try:
                 v = directive_value(d, e, mode, sb, h_override)
             except NotJudged:
@@ -193,8 +196,16 @@ def render(pieces, e, mode, sb, h_override=None):
                     vb = v.encode("utf-8", "surrogateescape")
                     pad_c = " " * (width - len(v))
                     pad_b = " " * max(0, width - len(vb))
-                    out.append(("alt", [(vb + pad_c.encode()) if left else (pad_c.encode() + vb),
-                                        (vb + pad_b.encode()) if left else (pad_b.encode() + vb)]))
+                    alts = [(vb + pad_c.encode()) if left else (pad_c.encode() + vb),
+                            (vb + pad_b.encode()) if left else (pad_b.encode() + vb)]
+                    if zeros and not left:
+                        alts += [pad_c.replace(" ", "0").encode() + vb, pad_b.replace(" ", "0").encode() + vb]
+                    out.append(("alt", alts))
+                    continue
+                if zeros and not left:
+                    # a leading 0 is printf(3)'s zero-fill flag: this implementation fills with blanks, C fills numbers with
+                    # zeros - the statement fixes the width, not the fill character of this spelling; both are accepted
+                    out.append(("alt", [(c * (width - len(v)) + v).encode("utf-8", "surrogateescape") for c in " 0"]))
                     continue
                 v = v + " " * (width - len(v)) if left else " " * (width - len(v)) + v
             out.append(("b", v.encode("utf-8", "surrogateescape")))
@@ -360,6 +371,8 @@ def worker(job):
             for pc in pieces:
                 if pc[0] == "dir":
                     st.add("cells", (pc[1], mode, pc[2], pc[3] is not None))
+                    if len(pc) > 4 and pc[4]:
+                        st.inc("widths_spelled_with_leading_zeros")
                     st.inc("directive:%" + pc[1])
                 elif pc[0] == "esc":
                     st.inc("escapes")
